@@ -18,7 +18,8 @@ RULE = ("controlled scheduling of the real store code: two (thorough: also three
         "every pair from {put new c, put new d with c's UID, conditional put a (two bodies), unconditional put a, put b, conditional delete a, delete a, delete b, set displayname} "
         "on a pre-state {a, b}, on tree-git and bare-git, with one shared store object (threads of one server) and with one store object per thread (processes); oracle: the same "
         "operations executed sequentially in every order on copies of the pre-state (operations that returned LockedError removed) - results and final contents must equal one of "
-        "them; plus UID uniqueness, git fsck, linear history, index == HEAD; thorough adds an HTTP stress run with delay injection and a per-name linearisability check; "
+        "them; after every serialisable race two more puts (a new name with c's UID, a new name with a's UID) are issued through the store objects that took part and must answer "
+        "as they do after the matching sequential execution (a store object left stale by the race shows here); plus UID uniqueness, git fsck, linear history, index == HEAD; thorough adds an HTTP stress run with delay injection and a per-name linearisability check; "
         "distinct = distinct interleavings (hash of the (thread, yield) sequence)")
 
 OPS = ["put_new_c", "put_new_d_same_uid", "put_a_cond1", "put_a_cond2", "put_a_uncond", "put_b", "del_a_cond", "del_a", "del_b", "set_name"]
@@ -36,7 +37,25 @@ def bodies(rng):
         "a0": gen.ical(rng, "uid-a", "A0", rich=False), "b0": gen.ical(rng, "uid-b", "B0", rich=False),
         "a1": gen.ical(rng, "uid-a", "A1", rich=False), "a2": gen.ical(rng, "uid-a", "A2", rich=False), "a3": gen.ical(rng, "uid-a", "A3", rich=False),
         "b1": gen.ical(rng, "uid-b", "B1", rich=False), "c": gen.ical(rng, "uid-c", "C", rich=False), "d": gen.ical(rng, "uid-c", "D", rich=False),
+        "e": gen.ical(rng, "uid-c", "E", rich=False), "f": gen.ical(rng, "uid-a", "F", rich=False),
     }
+
+
+# operations executed strictly after the concurrent ones returned, through the store objects
+# that took part in the race: their answers too must be those of a sequential execution
+FOLLOWUPS = [("e.ics", "e", "put-new-name-with-uid-of-c"), ("f.ics", "f", "put-new-name-with-uid-of-a")]
+
+
+def run_followups(getters, B):
+    out = []
+    for k, (name, b, _) in enumerate(FOLLOWUPS):
+        try:
+            st = getters[k % len(getters)]()
+            r = ("value", ("ok", st.import_one(name, "text/calendar", [B[b]])[1]))
+        except Exception as e:  # noqa
+            r = ("exc", e)
+        out.append(outcome(r)[0])
+    return tuple(out)
 
 
 def make_op(name, st, B, e0):
@@ -142,7 +161,9 @@ class Scenario:
             except Exception as e:
                 res[i] = ("exc", e)
         fin, dup = final_state(self.backend, self.work)
-        return {i: outcome(r) for i, r in res.items()}, fin
+        st = storedrv.open_store(self.backend, self.work)
+        follow = run_followups([lambda: st], self.B)
+        return {i: outcome(r) for i, r in res.items()}, fin, follow
 
     def sequential_spec(self):
         n = len(self.ops)
@@ -172,6 +193,7 @@ class Scenario:
         ops = [make_op(nm, fac[i], self.B, self.e0) for i, nm in enumerate(self.ops)]
         s = sched.Scheduler(self.work, preempt=preempt, first=first, line_funcs=self.line_funcs())
         raw = s.run(ops)
+        self.last_fac = fac
         return s, raw
 
 
@@ -201,15 +223,32 @@ def judge(sc, s, raw, res, cfg, sched_descr):
     locked = tuple(sorted(i for i, o in outs.items() if o[0] == "Locked"))
     live = tuple(i for i in range(len(sc.ops)) if i not in locked)
     acceptable = []
-    for order, (souts, sfin) in sc.seq.items():
+    follow_of = {}
+    for order, (souts, sfin, sfollow) in sc.seq.items():
         if tuple(sorted(order)) != tuple(sorted(live)):
             continue
         acceptable.append((order, souts, sfin))
+        follow_of[order] = sfollow
     ok = False
+    matching = []
     for order, souts, sfin in acceptable:
         if sfin == fin and all(souts[i] == outs[i] for i in live):
             ok = True
-            break
+            matching.append(order)
+    if ok and getattr(sc, "last_fac", None):
+        got = run_followups(sc.last_fac, sc.B)
+        sc.last_fac = None
+        res.count("followups_judged")
+        exp = sorted({follow_of[o] for o in matching})
+        for g in got:
+            res.count("followup_outcome:" + g)
+        if got not in exp:
+            k = [i for i in range(len(got)) if all(e[i] != got[i] for e in exp)]
+            k = k[0] if k else 0
+            where = "threads-sharing-one-store-object" if sc.mode == "shared" else "one-store-object-per-thread"
+            res.violation(f"{tag}/{where}/operation-after-the-race/{FOLLOWUPS[k][2]}/{got[k]}-instead-of-{exp[0][k]}",
+                          f"[{pair}] {sched_descr}: the concurrent operations themselves are serialisable ({matching[0]}), but operations issued after both returned, through the same "
+                          f"store object(s), answer {dict(zip([f[2] for f in FOLLOWUPS], got))}; sequentially they answer {[dict(zip([f[2] for f in FOLLOWUPS], e)) for e in exp]}", wit)
     if locked:
         res.count("schedules_with_locked_refusal")
     if not ok and not any(o[0].startswith("EXC:") for o in outs.values()):
@@ -485,7 +524,8 @@ def check(tier, seed, t0):
     c = merged["counters"]
     guards = [("scenarios", c.get("scenarios", 0), int(len(scs) * 0.95)), ("schedules judged", c.get("schedules_judged", 0), 3000 if not th else 30000),
               ("schedules equal to a sequential execution", c.get("schedules_serialisable", 0), 2000 if not th else 20000),
-              ("schedules with a LockedError refusal", c.get("schedules_with_locked_refusal", 0), 50), ("fsck runs", c.get("fsck_runs", 0), 300)]
+              ("schedules with a LockedError refusal", c.get("schedules_with_locked_refusal", 0), 50), ("fsck runs", c.get("fsck_runs", 0), 300),
+              ("operations issued after a race and judged", c.get("followups_judged", 0), 2000 if not th else 20000), ("of which refused as duplicate UID", c.get("followup_outcome:DuplicateUid", 0), 500)]
     disc = c.get("schedules_discarded_blocked", 0)
     return common.finish(PROP, tier, seed, "exploration", merged, failures, RULE, t0, guards=guards,
                          extra_cov={"schedules_discarded_as_blocked": disc, "distinct_interleavings": len(merged["distinct"])},
